@@ -37,7 +37,8 @@ theorem ref_is_target (env : Env) (impl : FmtImpl) (d : Draft) (fc : Option Form
   have hr : Json.hasKey (skey "$ref") kvs = true := by unfold Json.hasKey; rw [href]; rfl
   rw [evalStep_obj_noId env impl (d.cfg fc) rec kvs inst (.inr hr),
     schemaBody_ref env impl d fc rec kvs r inst href]
-  dsimp only [mapErrs, kwRef]
+  dsimp only [mapErrs]
+  rw [kwRef_str]
   rcases resolve env r st with ⟨⟨url, target⟩ | e | q, st1⟩ <;> rfl
 
 /-- errors coming out of a reference keep their own records: `stamp` for `$ref` changes nothing in
